@@ -21,6 +21,12 @@ chk("C19",
     "Coq proof (rotation lemma on sorted lists + potential-function induction over runs) + vm_compute correspondence with the real QueryWalker",
     "DESIGN.md §4 C19")
 
+chk("C15",
+    "Coq theorems over the model of update_delete's candidate loop, for all copy tables, shortfalls, pending-source sets and node types: removable copies are selected only under space pressure on non-archive nodes with known free space; only unwanted, tracked, non-pending copies, in record order; released copies always; minimality (a removable copy is taken only while the credit of everything queued before it in the pass is short of the shortfall) and sufficiency; batching neither drops nor reorders. Tie: all 8 guards, both query clauses, the crediting statements and the shortfall expression are re-translated from /repo on every run and proved equal to the model's (T1); the real update_delete on sqlite with a recording io.delete is compared with the model in Coq on random tables (T2).",
+    "Coq kernel+VM; translator fragment; GiB values restricted to multiples of 1/1024 so the float expression int((min-avail)*2**30) is exact (float rounding outside the model); sqlite ordering/filter semantics by correspondence",
+    "Coq proof (induction over the candidate list with a running-credit invariant) + regenerated guards tie + vm_compute correspondence",
+    "DESIGN.md §4 C15")
+
 ALL = [f"C{i:02d}" for i in range(1, 21)]
 NA_REASON = "check not yet built in this revision (planned: see DESIGN.md §7); nothing is claimed for it"
 
